@@ -13,7 +13,7 @@ whether it is persistent; `SKind` selects Indexed/LinearState. `enabled`/`comple
 /-- **Partial.** Full statement (false on the code, see the negative theorems below): *after every step of every
 history the registry equals the set of stored scheduled rules*. Proved: after every step (every prefix) of a
 history all of whose events are hook-visible (`PlainRun`: top-level adds and removes of rules and facts, ticks that
-consume a one-shot together with its rule, Clear of an IndexedState, cascades/expirations/linear Clears that touch
+consume a one-shot together with its rule, Clear with either State, cascades/expirations that touch
 no scheduled rule, no overwrite of a scheduled rule by an unscheduled item, rule ids not shared between locations
 when the cron keys by id, no reload), starting from the empty system. What is missing is exactly what the code
 gets wrong. -/
@@ -182,12 +182,23 @@ theorem side_effect_delete_leaves_stale_registration :
   obtain ⟨l, it, h1, _⟩ := this
   revert h1; simp [run, step, evAdd, evRemTop, evDrop, aGet, aSet, aErase, ASys.init, hookAdd, hookRem]
 
-/-- **Clear.** `LinearState.Clear` calls no hook: the job stays; `IndexedState.Clear` removes it. -/
-theorem linear_clear_leaves_stale_registration :
-    (run (ASys.init .linear ephemeralById) [.add "A" "r" schedR, .clear "A"]).reg = [((none, "r"), ⟨"0 0 1 1 *", "A"⟩)] ∧
-    (run (ASys.init .linear ephemeralById) [.add "A" "r" schedR, .clear "A"]).items = [] ∧
-    (run (ASys.init .indexed ephemeralById) [.add "A" "r" schedR, .clear "A"]).reg = [] := by
-  decide
+/-- **Clear.** Both states run the rem hook for every stored id before they forget their facts: the jobs of the
+cleared location go, the jobs of the other location stay. (`LinearState.Clear` called no hook until the repair of
+finding C15-linear-clear; the former witness -- a stale job after a Clear -- is the first conjunct.) -/
+theorem clear_unregisters_in_both_states (kind : SKind) :
+    (run (ASys.init kind ephemeralById) [.add "A" "r" schedR, .add "B" "q" sched1, .clear "A"]).reg
+      = [((none, "q"), ⟨"+1s", "B"⟩)] ∧
+    (run (ASys.init kind ephemeralById) [.add "A" "r" schedR, .add "B" "q" sched1, .clear "A"]).items
+      = [(("B", "q"), sched1)] := by
+  cases kind <;> decide
+
+/-- **Clear, every history.** After a `Clear` of `loc` no job of a rule of `loc` is registered under that rule's key,
+whatever the state kind and whatever happened before (no `Plain` hypothesis). -/
+theorem clear_leaves_no_job_of_the_location (a : ASys) (loc id : String) (h : schedAt a loc id = true) :
+    aGet (evClear a loc).reg (keyOf a.cfg loc id) = none := by
+  rw [evClear_reg]
+  have : (keyOf a.cfg loc id).2 = id := by unfold keyOf; split <;> rfl
+  simp [this, h]
 
 /-- **overwrite.** A scheduled rule overwritten by a `when` rule (or a plain fact) keeps its job; the stale tick
 finds a rule that the trigger event does not match and evaluates nothing. -/
@@ -218,7 +229,7 @@ theorem oneshot_fired_while_disabled_is_lost :
 
 /-- a history inside the fragment of `registered_iff_exists_partial`: two locations, both keyings' precondition
 (distinct ids), a fact cascade that touches no rule, an overwrite by another schedule, removes, a one-shot tick
-that consumes job and rule, a recurring tick, an IndexedState Clear -/
+that consumes job and rule, a recurring tick, a Clear -/
 def plainExample : List AEv :=
   [.add "A" "ra" sched1, .add "B" "rb" schedR, .add "A" "f" plainFact, .add "A" "g" plainFact, .remTop "A" "f", .drop "A" ["g"],
    .add "B" "rb" ⟨"*/5 * * * *", .runs⟩, .tick (none, "ra") true true, .tick (none, "rb") true true,
